@@ -22,6 +22,10 @@ func main() {
 		os.Exit(2)
 	}
 	prop := os.Args[1]
+	if prop == "imports-process" {
+		importsProcess()
+		return
+	}
 	fs := flag.NewFlagSet("vh", flag.ExitOnError)
 	tier := fs.String("tier", "quick", "quick or thorough")
 	seedS := fs.String("seed", "1", "PRNG seed")
